@@ -6,8 +6,7 @@
 (*             (arrived at the barrier)                                    *)
 (*   Once    : the run returns exactly once                                *)
 (*   Status  : the status of the first shutdown request made before the    *)
-(*             timeout, otherwise TimedOut (Exited if nobody asked and all *)
-(*             protocols finished)                                         *)
+(*             timeout, otherwise TimedOut                                 *)
 (*   Bound   : not later than timeout + 1 s of simulated time              *)
 (***************************************************************************)
 EXTENDS Integers, Sequences, FiniteSets, TLC, Json, IOUtils
@@ -32,7 +31,9 @@ Step(t, e) ==
     [] e.ev = "returned" ->
          LET t1 == IF t.returns > 0 THEN Viol(t0, e, "the run returned more than once") ELSE t0
              \* (a built-in Capture application requests status 7 when its message arrives; that request is not logged)
-             want == (IF t.first # -100 THEN {t.first} ELSE {-2, -1}) \cup (IF t.capture THEN {7} ELSE {})
+             \* every run of the driver has a timeout: its timer task holds the shutdown channel open, so a run in which nobody
+             \* asked ends with TimedOut (never with the Exited of a channel that closed), even with no machine at all
+             want == (IF t.first # -100 THEN {t.first} ELSE {-2}) \cup (IF t.capture THEN {7} ELSE {})
              t2 == IF e.status \in want THEN t1
                    ELSE Viol(t1, e, "the run did not return the status of the first shutdown request made before the timeout (or TimedOut)")
              t3 == IF e.t <= t.timeout + 1000000 THEN t2 ELSE Viol(t2, e, "the run returned later than one second after its timeout")
